@@ -3,7 +3,7 @@
 # (Equivalent to applying the patch to /repo and undoing it, without disturbing other jobs that build /repo.)
 set -u
 patch=$(realpath $1); shift
-wt=/tmp/seedwt-$$
+wt=${SEEDWT:-/tmp/seedwt-$$}
 git -C /repo worktree add --detach $wt HEAD -q || exit 3
 if ! git -C $wt apply "$patch"; then echo "PATCH DOES NOT APPLY"; git -C /repo worktree remove --force $wt; exit 3; fi
 rc=0
